@@ -189,7 +189,7 @@ def run(prop, tier):
 
         # merge statistics
         tot = {}
-        maps = {k: {} for k in ("configured", "fired", "outcomes", "verdicts", "known", "sites", "axes", "workloads")}
+        maps = {k: {} for k in ("configured", "fired", "outcomes", "verdicts", "known", "sites", "axes", "workloads", "unreproducible_sanitized")}
         per_kind = {}
         functions = set()
         hashes = set()
@@ -245,6 +245,7 @@ def run(prop, tier):
             "functions_of_real_code_entered": len(functions),
             "known_finding_matches": maps["known"],
             "violation_classes": maps["verdicts"],
+            "sanitized_only_unreproducible": maps["unreproducible_sanitized"],
             "determinism_gate": {"runs_compared": compared, "mismatches": len(mism), "worker_counts": [nplain, 3]},
             "components": {"real": ["attr.c decl.c eval.c expr.c init.c main.c map.c pp.c scan.c scope.c stmt.c targ.c token.c tree.c type.c utf.c util.c qbe.c", "glibc stdio buffering"],
                            "stub": ["malloc/realloc/free (seeded arena allocator with canaries, or ASan's allocator in the sanitized build)", "fopen/freopen/stdin/stdout/stderr (fopencookie streams)", "exit/abort/__assert_fail", "getenv/time/rand/getpid/setlocale tripwires"]},
